@@ -319,6 +319,18 @@ def comp(vec, c):
     raise Undecided("not a vector: %r" % (vec,))
 
 
+def restated_clause(ctx, rule, fn, construct, thunk):
+    """A clause borrowed from another property's rule: decided here too when its anchors can be located; when they cannot (RoleLost),
+    the OWNING property fails closed and this one only notes the omission (no second alarm for the same lost anchor)."""
+    try:
+        thunk()
+    except RoleLost as e:
+        ctx.note("%s: restated clause `%s` skipped — anchor not located (%s); the owning rule reports it" % (rule, construct, e))
+    except Undecided as u:
+        ctx.ob(rule, "kernel summarised", False, fn, "kernel-undecided:" + construct,
+               detail="kernel-undecided: %s (a construct outside the summarisation model lies on the path to a compared output)" % u.what)
+
+
 def guarded_clause(ctx, rule, fn, construct, thunk):
     try:
         thunk()
@@ -1117,7 +1129,7 @@ def run_c13(ctx):
     ctx.rule("C13-e", "the pairs are the TAIL of a get_dimension()-long point and the reported vectors are the routine's: 2·pairs equals the Gaussian "
                       "term of get_dimension (restated from C14-g), the Gaussian routine is the last reader in sample, Metadata.q_vectors is its result")
 
-    def e_():
+    def e_sibling():
         pairs = gaussian_pair_count(ctx, gauss)
         dimfn, dim = dimension_formula(ctx)
         n = Expr.symbol("D") * Expr.symbol("L")
@@ -1126,6 +1138,9 @@ def run_c13(ctx):
                 "dimension-formula", {}, ())
         compare(ctx, "C13-e", "pairs == (Gaussian term of get_dimension) div 2", pairs, Expr.atom(("call", "idiv", gterm, Expr.const(2))), gauss.path,
                 "gaussian-count-sibling", {}, ())
+    restated_clause(ctx, "C13-e", gauss.path, "tail-agreement", e_sibling)
+
+    def e_():
         s_ = R.sample()
         sv = Vals(s_)
         from .common import built_structs
@@ -1360,7 +1375,7 @@ def run_c14g(ctx):
                 Expr.atom(("call", "idiv", gterm, Expr.const(2))), gauss.path, "gaussian-count-sibling", {}, ())
     guarded_clause(ctx, "C14-g", gauss.path, "gaussian-count", g)
     # the L of both formulas is the graph's loop number (restated from C03-a)
-    guarded_clause(ctx, "C14-g", "preprocessing::TropicalGraph::from_graph", "graph-dod", lambda: graph_dod_clause(ctx, "C14-g"))
+    restated_clause(ctx, "C14-g", "preprocessing::TropicalGraph::from_graph", "graph-dod", lambda: graph_dod_clause(ctx, "C14-g"))
 
 
 # ---------------------------------------------------------------------------------------------------
@@ -1957,15 +1972,18 @@ def run_c03_flags(ctx, RID="C03-e"):
     guarded_clause(ctx, RID, fn, "spanning-definition", body)
 
 
-def run_c03_loops(ctx, RID="C03-f"):
-    ctx.rule(RID, "loop number of an edge set S: 0 for the empty set, else Σ_{component c of S} (1 + |edges(c)| − |{endpoints of the edges of c}|) "
-                  "(Euler's formula per component; connected-components routine abstracted, its correctness not decided)")
+def run_c03_loops(ctx, RID="C03-f", soft=False):
+    if not soft:
+        ctx.rule(RID, "loop number of an edge set S: 0 for the empty set, else Σ_{component c of S} (1 + |edges(c)| − |{endpoints of the edges of c}|) "
+                      "(Euler's formula per component; connected-components routine abstracted, its correctness not decided)")
     f = ctx.facts
     try:
         gr = idroles.graph_roles(ctx)
         if "components" not in gr:
             raise RoleLost("components routine")
     except RoleLost as e:
+        if soft:
+            return ctx.note("%s: restated loop-number clause skipped — %s; the owning rule reports it" % (RID, e))
         return ctx.lost(RID, str(e))
     fn = gr["loopnum"].path
     ctx.fn(fn)
@@ -2130,7 +2148,7 @@ def run_c04(ctx):
                tb.path, "last-is-full", detail="table length class %s, expected %s" % (getattr(tbl, "classes", None), size))
     guarded_clause(ctx, "C04-b", tb.path, "cached-factor", b)
     ctx.rule("C04-c", "the dod and L that enter the normalisation are the graph's: dod = Σ_e w_e − L·D/2, L = loop number of all edges (restated from C03-a)")
-    guarded_clause(ctx, "C04-c", fg.path, "graph-dod", lambda: graph_dod_clause(ctx, "C04-c"))
+    restated_clause(ctx, "C04-c", fg.path, "graph-dod", lambda: graph_dod_clause(ctx, "C04-c"))
 
 
 # ---------------------------------------------------------------------------------------------------
